@@ -250,11 +250,33 @@ def run(ctx):
         ctx.need("R10.4", "buffer creation sites", nbuf, 1)
         # on the false edge r is released: every path that takes the false edge resets r
         released = lambda e: any(n.get("k") == "call" and short(n.get("name") or "") in ("reset", "release") and fmt(n.get("this")) == "r" and not [a for a in n.get("args", []) if a.get("k") != "defarg"] for n in elem_calls(e))
+        # ... or r never held the record on that path: it starts empty (the record is prepared under a local owner that releases it at the end
+        # of the constructor) and receives the record only behind the true edge
+        r_empty = False
+        for _, _, e0 in f.all_elems():
+            if e0["kind"] == "init" and short(e0.get("field") or "") == "r":
+                x0 = ir.unwrap(e0["expr"])
+                r_empty = isinstance(x0, dict) and ((x0.get("k") == "construct" and not [a for a in x0.get("args", []) if a.get("k") != "defarg"]) or (x0.get("k") == "lit" and x0.get("t") == "null") or x0.get("k") in ("value_init",)
+                                                      or (x0.get("k") in ("paren_list", "init_list") and not x0.get("elems")))
+
+        def takes_record(e0):
+            x0 = e0.get("expr")
+            if not isinstance(x0, dict):
+                return False
+            for n0 in walk(x0, into_sc=False):
+                if n0.get("k") == "bin" and n0.get("op") == "=" and fmt(n0["l"]) == "r":
+                    return True
+                if n0.get("k") == "call" and fmt(n0.get("this")) == "r" and (n0.get("op") == "=" or short(n0.get("name") or "") in ("operator=", "swap") or (short(n0.get("name") or "") == "reset" and [a for a in n0.get("args", []) if a.get("k") != "defarg"])):
+                    return True
+            return False
         for (b, i, e) in wl:
             _, neg = cfg.strip_not(f.term(b).get("cond")) if f.term(b).get("cond") is not None else (None, False)
             for to, lab in f.succs(b):
                 if lab == ("true" if neg else "false"):
                     p = cfg.reaches_without(f, (to, -1), cfg.EXIT, released)
+                    if p is not None and r_empty and cfg.reaches_without(f, (to, -1), takes_record, lambda x: False) is None \
+                            and cfg.reaches_without(f, (f.entry, -1), takes_record, lambda x, b=b, i=i, e=e: x is e) is None:
+                        p = None
                     ctx.check(p is None, "R10.4", f, "record-released-when-rejected", "when will_log returns false the record is kept: the destructor would format and emit it", f)
     for f in dtor:
         logs = []
